@@ -67,7 +67,7 @@ def count_generated(ck):
         src = open(SKEL_OUT).read()
     except OSError:
         return 0
-    return len(re.findall(r"^Lemma (safe_|fanouts_ok|multi_reads_ok|atomic_ops_single_section)", src, re.M))
+    return len(re.findall(r"^Lemma (safe_|fanouts_ok|multi_reads_ok|atomic_ops_single_section|every_go_site_classified)", src, re.M))
 
 
 def tx_term(a):
@@ -143,6 +143,15 @@ def classify(r, where):
         listed = sorted(i for l in s["lists"] for i in l[2])
         if listed != sorted(s["all"]):
             return "c14:%s:index-lists" % opk, "allTransactions %s but sender lists hold %s after step %d" % (s["all"], listed, ix)
+        if opk == "add" and st["op"][1] in s["all"]:
+            t = st["op"]
+            prev = r["steps"][ix - 2]["snap"]["all"] if ix >= 2 else []
+            tab = {x["op"][1]: x["op"] for x in r["steps"] if x["op"][0] == "add"}
+            for oid in prev:
+                o = tab.get(oid)
+                if o and oid != t[1] and o[2] == t[2] and o[3] == t[3] and (o[4] + r["cfg"][3] > t[4] or oid in s["all"]):
+                    return "c14:add:replacement-without-fee-increase", ("tx %d (fee %d) took the (sender %d, nonce %d) slot of tx %d (fee %d) "
+                            "with MinReplacementFeeDifference %d after step %d" % (t[1], t[4], t[2], t[3], oid, o[4], r["cfg"][3], ix))
         if not st["api"]:
             return "c14:%s:api" % opk, "Get/GetAll/GetProcessable disagree with the indexes after step %d" % ix
         return "c14:%s:oracle" % opk, "implementation snapshot violates the index oracle after step %d" % ix
@@ -196,7 +205,32 @@ def run(ck):
     recs = ck.run_harness(binp, args)
     if recs is None:
         return
+    floor = 300 if ck.tier == "quick" else 4000
+    ck.obligations += 1
+    if len(recs) < floor or sum(len(r["steps"]) for r in recs) < 5 * floor:
+        ck.fail_obligation("harness-volume", "harness/cmd/c14 produced %d cases (%d steps), fewer than the floor %d: inconclusive, "
+                           "not a pass" % (len(recs), sum(len(r["steps"]) for r in recs), floor))
+    else:
+        ck.discharged += 1
+    # a hang may be load, not a deadlock: such cases are re-run once with a five times longer watchdog before they count
+    hung = [r for r in recs if any(s["hang"] for s in r["steps"])]
+    if hung:
+        inp = os.path.join(ck.work, "rerun_in.jsonl")
+        open(inp, "w").write("".join(json.dumps(r) + "\n" for r in hung[:20]))
+        again = ck.run_harness(binp, ["-in", inp, "-n", "0"], out_name="rerun.jsonl", env_extra={"VERIF_WATCHDOG_MS": "15000"})
+        if again is not None:
+            again = again[-len(hung[:20]):]
+            still = [r for r in again if any(s["hang"] for s in r["steps"])]
+            ck.notes.append("%d case(s) hung within the 3 s watchdog; re-run with 15 s: %d still hang" % (len(hung), len(still)))
+            ids = {id(r) for r in hung[:20]}
+            recs = [r for r in recs if id(r) not in ids] + again
     evaluate(ck, recs)
+    # one shard with equal fee priorities across senders (eviction victim chosen by map order: the model follows the
+    # implementation through the ids that disappeared); not reproducible byte for byte, the verdict is
+    ties = ck.run_harness(binp, ["-ties", "-n", "60" if ck.tier == "quick" else "600", "-len", "14"], out_name="ties.jsonl")
+    if ties is not None:
+        evaluate(ck, ties)
+        ck.extra["ties_shard_cases"] = len(ties)
     steps = [s for r in recs for s in r["steps"]]
     dist = {}
     for s in steps:
@@ -220,7 +254,7 @@ def run(ck):
                       "(config, op kinds, results, number of dropped ids)")
     ck.extra["traces_validated_against_impl"] = len(recs)
     if summ:
-        ck.extra["skeleton_translator"] = {k: summ.get(k) for k in ("functions", "lock_order", "nesting", "assumed_live_sends")}
+        ck.extra["skeleton_translator"] = {k: summ.get(k) for k in ("functions", "lock_order", "nesting", "guarded_selects", "go_sites")}
     ck.assume += ["opaque calls under the pool lock (ABI.VerifyTransaction, p2pConnection.Publish, logger) return",
                   "Go's sync.RWMutex is writer-preferring (a waiting Lock blocks new RLocks); container/heap keeps a minimum at index 0",
                   "harness interleavings are controlled at the verifier calls (reorg goroutines, and Add overlapped with Add/Remove/reorg)"]
